@@ -133,7 +133,11 @@ def run_shape(prog, shape):
         check(res, M.eq_formula(eng, m1, m2), "meta of the operated vault differs from the replayed log")
         check(res, M.eq_formula(eng, c1, c2), "secrets of the operated vault differ from the replayed log")
         for k, a, b in tt:
-            check(res, M.eq_formula(eng, a, b), "new_until_commit(commit %d) differs from the fold of the first %d events" % (k, k + 1))
+            pa, pb = V.vault_parts(a), V.vault_parts(b)
+            cond = True
+            for x, y in zip(pa, pb):
+                cond = M.b_and(cond, M.eq_formula(eng, x, y))
+            check(res, cond, "new_until_commit(commit %d) differs from the fold of the first %d events" % (k, k + 1))
         if not out["samples"]:
             mm = H.witness_for(res)
             if mm is not None:
